@@ -107,3 +107,32 @@ def value_problems(T, t, v):
         if not isinstance(v, datetime.datetime) or v.utcoffset() is None:
             probs.append(f"DateTime holds {v!r}")
     return probs
+
+
+def selftest():
+    """The validator must see each kind of violation on hand-made broken instances (bypassing the constructor)."""
+    import decimal as _d
+    from ofxtools.models import BANKACCTFROM, STMTTRN, BALLIST, STATUS
+
+    def raw(cls, members=(), **fields):
+        x = cls.__new__(cls)
+        list.__init__(x)
+        for k in ref_decl.decl(cls):
+            if ref_decl.kind_of(ref_decl.decl(cls)[k]) in ("elem", "sub"):
+                x.__dict__[k] = None
+        x.__dict__.update(fields)
+        for m in members:
+            list.append(x, m)
+        return x
+
+    ok = raw(BANKACCTFROM, bankid="1", acctid="2", accttype="CHECKING")
+    assert check(ok) == [], check(ok)
+    assert any("required" in p for p in check(raw(BANKACCTFROM, acctid="2", accttype="CHECKING")))
+    assert any("enumeration" in p for p in check(raw(BANKACCTFROM, bankid="1", acctid="2", accttype="NOPE")))
+    assert any("exceeds limit" in p for p in check(raw(BANKACCTFROM, bankid="1" * 10, acctid="2", accttype="CHECKING")))
+    assert any("digits" in p for p in check(raw(STATUS, code=10**6, severity="INFO")))
+    assert any("permitted list member" in p for p in check(raw(BALLIST, members=[ok])))
+    assert any("no repeated element" in p for p in check(raw(BANKACCTFROM, members=["x"], bankid="1", acctid="2", accttype="CHECKING")))
+    both = raw(STMTTRN, trntype="DEBIT", dtposted=None, trnamt=_d.Decimal(1), fitid="1", name="n", payee=ok)
+    assert any("at-most-one" in p for p in check(both, deep=False)), check(both, deep=False)
+    return True
